@@ -24,6 +24,7 @@ T3  EffectConflictsTrace judges every recorded history (the enumerated ones and 
 Python holds no oracle: it builds objects from the table TLC emitted, calls the API and projects what
 the public getters return to indices of that table.
 """
+import multiprocessing
 import os
 import warnings
 
@@ -259,16 +260,39 @@ class World:
         return {"c": cn, "nt": nt, "init": init, "ops": ops}, excs
 
 
+_CONFIRMED = multiprocessing.get_context("fork").Value("i", 0)  # confirmed non-terminations (shared with forked workers)
+
+
+def limited_replay(W, cn, idxs, nt, probe_every, probe_init):
+    """One history under a time limit.  The limit is wall-clock time, and a starved process on a busy
+    machine can lose 10 s without running at all: a history that times out is run once more with a
+    long limit before it is called non-terminating (a real loop in the library fails both)."""
+    if _CONFIRMED.value >= 2:
+        return ("skipped", None)  # the library loops: two confirmed cases are enough, do not wait for thousands
+    for limit in (10, 60):
+        try:
+            with time_limit(limit):
+                return W.replay(cn, idxs, nt, probe_every, probe_init)
+        except ImplTimeout:
+            pass
+    with _CONFIRMED.get_lock():
+        _CONFIRMED.value += 1
+    return ("timeout", None)
+
+
 def guarded_replay(ctx, W, cn, idxs, nt, probe_every, probe_init):
-    """One history under a time limit; a history that does not come back is a violation."""
-    try:
-        with time_limit(10):
-            return W.replay(cn, idxs, nt, probe_every, probe_init)
-    except ImplTimeout:
+    """A history that does not come back is a violation."""
+    r = limited_replay(W, cn, idxs, nt, probe_every, probe_init)
+    if r[0] == "skipped":
+        return None, None
+    if r[0] == "timeout":
         ctx.violation(
-            "impl-nonterminating", "an effect-insertion history does not terminate within 10 s", {"c": cn, "nt": nt, "ops": idxs}
+            "impl-nonterminating",
+            "an effect-insertion history does not terminate (10 s, then 60 s)",
+            {"c": cn, "nt": nt, "ops": idxs},
         )
-    return None, None
+        return None, None
+    return r
 
 
 _POOL_WORLD = None
@@ -277,11 +301,7 @@ _POOL_WORLD = None
 def _pool_job(chunk):
     out = []
     for cn, idxs, nt, every, pinit in chunk:
-        try:
-            with time_limit(10):
-                out.append(_POOL_WORLD.replay(cn, idxs, nt, every, pinit))
-        except ImplTimeout:
-            out.append(("timeout", None))
+        out.append(limited_replay(_POOL_WORLD, cn, idxs, nt, every, pinit))
     return out
 
 
@@ -291,8 +311,6 @@ def replay_all(ctx, W, jobs):
     global _POOL_WORLD
     if len(jobs) < 30000:
         return [guarded_replay(ctx, W, *j) for j in jobs]
-    import multiprocessing
-
     _POOL_WORLD = W
     chunks = [jobs[i : i + 500] for i in range(0, len(jobs), 500)]
     with multiprocessing.get_context("fork").Pool(8) as pool:
@@ -300,10 +318,12 @@ def replay_all(ctx, W, jobs):
     out = []
     for chunk, part in zip(chunks, parts):
         for (cn, idxs, nt, every, pinit), r in zip(chunk, part):
-            if r[0] == "timeout":
+            if r[0] == "skipped":
+                out.append((None, None))
+            elif r[0] == "timeout":
                 ctx.violation(
                     "impl-nonterminating",
-                    "an effect-insertion history does not terminate within 10 s",
+                    "an effect-insertion history does not terminate (10 s, then 60 s)",
                     {"c": cn, "nt": nt, "ops": idxs},
                 )
                 out.append((None, None))
@@ -562,6 +582,7 @@ def run(ctx):
     ctx.cov["distinct_nontrivial"] = nontrivial
     ctx.cov["histories_continuing_after_a_rejection"] = rejected_then_more
     ctx.cov["traces_per_group"] = pergroup
+    ctx.cov["histories_not_replayed"] = len(todo) - len(traces)  # non-terminating ones and those skipped after two of them
     ctx.cov["impl_layer_conformance"] = conforms
     ctx.cov["t1"] = ctx.notes["t1"]
     ctx.cov["rule"] = (
@@ -590,7 +611,9 @@ def selftest(ctx):
     hist = [h for h in hist if h["g"] == "full-L2"]
     traces, expect = [], {}
     for n, h in enumerate(hist[:: max(1, len(hist) // 60)]):
-        t, _ = W.replay(h["c"], h["ops"], h["nt"], True, True)
+        t, _ = limited_replay(W, h["c"], h["ops"], h["nt"], True, True)
+        if t == "timeout":
+            raise MachineryError("selftest history does not terminate")
         good = copy.deepcopy(t)
         good["id"] = 4 * n
         traces.append(good)
@@ -623,7 +646,10 @@ def replay(ctx, data):
         return 0
     table, tabpath, _ = enumerate_histories(ctx, "GroupsNone")
     W = World(table)
-    t, excs = W.replay(d["c"], d["ops"], d["nt"], True, True)
+    t, excs = limited_replay(W, d["c"], d["ops"], d["nt"], True, True)
+    if t == "timeout":
+        print("the history does not terminate")
+        return 1
     t["id"] = 0
     for o, e in zip(t["ops"], excs):
         print(describe(table, [o["i"]])[0], "->", o["r"], e, "stored", o["st"], "sim", o["sm"])
